@@ -251,9 +251,10 @@ class MBuild:
         for a in reversed(need):
             self.v[a] = ('d',)
             self.created.add(a)
-        self.v.pop(p, None)
+        clobbered = self.v.pop(p, None) is not None
         self.claimed_files.add(p)
         self.inprog.add(p)
+        return clobbered
 
     def user_write(self, p, data):
         if p not in self.inprog:
@@ -299,6 +300,12 @@ class MBuild:
             node.why = 'raises-now'
         elif has_setup(r) or has_setup(node):
             node.why = 'setup-failed-inside'
+        elif any(x.t == 'bf' and x.raised and x.get('clobbered')
+                 for x in iter_nodes(node.sub)):
+            # a failed nested build_file whose target is occupied now: its recorded
+            # (absent) comparison result no longer matches, and from scratch the
+            # occupying file is removed
+            node.why = 'failed-target-occupied'
         elif not self.outputs_intact(r):
             node.why = 'output-changed'
         elif not same_trace(node, r):
@@ -370,8 +377,21 @@ class MBuilder:
 
         def fn():
             names = self._list(p)
+            self._taint_if_cache_dir_listed(p)
             return list(names), tuple(names)
         return self._simple('list_dir', (p,), fn)
+
+    def _taint_if_cache_dir_listed(self, p):
+        """directories that exist only to hold the cache file: whether a listing shows
+        them is unspecified (C04 latitude), so a re-execution caused by such a listing
+        cannot be judged (C05)"""
+        if self._node is None:
+            return
+        pre = p.rstrip('/') + '/'
+        for c in ancestors(self._mb.m.cache):
+            if c.startswith(pre) and c.startswith(self._mb.m.sb + '/'):
+                self._node.taint = True
+                return
 
     def walk(self, p, top_down=True):
         if not isinstance(top_down, bool):
@@ -383,6 +403,7 @@ class MBuilder:
             res = []
             if mb.kind(p) != 'd':
                 return res, ()
+            self._taint_if_cache_dir_listed(p)
 
             def rec(d):
                 names = self._list(d)
@@ -470,7 +491,7 @@ class MBuilder:
         try:
             try:
                 with mb.lock:
-                    mb.begin_file(p)
+                    node.clobbered = mb.begin_file(p)
             except Exception:
                 node.raised = node.setup = True
                 raise
